@@ -1,4 +1,5 @@
 import LenaModel.Model.C04
+import LenaModel.Model.C04Spec
 import LenaModel.Lemmas.C03
 /-! # C04 — lemmas: `copy.deepcopy` allocates fresh objects with the same contents; the loops of
 `Split.run` are folds (`pass`, `passes`) -/
@@ -24,9 +25,6 @@ theorem cellsOf_append (xs ys : List (Item S)) : cellsOf (xs ++ ys) = cellsOf xs
   simp [cellsOf]
 
 /-! ## `copy.deepcopy` -/
-
-/-- the objects allocated by a copy that started at counter `lo` and is now at `hi` -/
-def InRange (ns lo hi : Nat) (t : Tok) : Prop := t.1 = ns ∧ lo ≤ t.2 ∧ t.2 < hi
 
 /-- every copy recorded in the memo was allocated by this call -/
 def MemoIn (ns lo : Nat) (c : CopySt C) : Prop := ∀ p ∈ c.memo, InRange ns lo c.ctr p.2
@@ -225,17 +223,9 @@ theorem runTrace_eq (s : Split σ S C) (hv : s.bufsize ≠ some 0) (st0 : Store 
 
 /-! ## which objects are handed to which branch -/
 
-/-- the objects of the buffer bound for a branch -/
-def handCells : Ev S C → List Tok
-  | .hand _ buf _ => cellsOf buf
-  | _ => []
-
 def Ev.isHand : Ev S C → Bool
   | .hand _ _ _ => true
   | _ => false
-
-/-- no common object -/
-def Disj (a b : List Tok) : Prop := ∀ t, t ∈ a → t ∉ b
 
 theorem Disj.nil_left (b : List Tok) : Disj [] b := by intro t h; simp at h
 theorem Disj.nil_right (a : List Tok) : Disj a [] := by intro t _; simp
@@ -725,58 +715,30 @@ theorem blocks_cells : ∀ (n : Nat) (bs : Option Nat) (_ : bs ≠ some 0) (flow
 
 /-! ## accumulators allocate what they yield -/
 
-/-- the methods of an accumulator -/
-def Req.isAcc : Req S → Bool
-  | .fill _ => true
-  | .compute => true
-  | .request => true
-  | _ => false
-
-/-- an accumulator allocates what it yields: `ctr` is its allocation counter in namespace `ns` -/
-structure FreshYield (ops : Ops σ S C) (ns : Nat) (ctr : σ → Nat) : Prop where
-  mono : ∀ st s r, ctr s ≤ ctr (ops.act st s r).2.1
-  fresh : ∀ st s (r : Req S), r.isAcc = true → ∀ t ∈ cellsOf (ops.act st s r).2.2.outs,
-    InRange ns (ctr s) (ctr (ops.act st s r).2.1) t
-  nodup : ∀ st s (r : Req S), r.isAcc = true → (cellsOf (ops.act st s r).2.2.outs).Nodup
-
 /-! ## histories of one accumulator -/
 
-/-- one step of a history: a method invocation, or anything the rest of the program does to the heap -/
-inductive HOp (S C : Type) where
-  | req (r : Req S)
-  | ext (f : Store C → Store C)
-
-/-- what was observed of an invocation: the allocation counter before it, the request, the response -/
-structure HEv (S : Type) where
-  ctr : Nat
-  req : Req S
-  resp : Resp S
-
-def runHist (ops : Ops σ S C) (ctr : σ → Nat) : Store C → σ → List (HOp S C) → List (HEv S)
-  | _, _, [] => []
-  | st, s, .ext f :: h => runHist ops ctr (f st) s h
-  | st, s, .req r :: h =>
-    let a := ops.act st s r
-    ⟨ctr s, r, a.2.2⟩ :: runHist ops ctr a.1 a.2.1 h
-
 theorem runHist_ctr_ge (ops : Ops σ S C) (ns : Nat) (ctr : σ → Nat) (hF : FreshYield ops ns ctr) :
-    ∀ (h : List (HOp S C)) (st : Store C) (s : σ), ∀ e ∈ runHist ops ctr st s h, ctr s ≤ e.ctr := by
+    ∀ (h : List (HOp σ S C)) (st : Store C) (s : σ), (∀ g, HOp.upd g ∈ h → ∀ s, ctr s ≤ ctr (g s)) →
+      ∀ e ∈ runHist ops ctr st s h, ctr s ≤ e.ctr := by
   intro h
   induction h with
-  | nil => intro st s e he; simp [runHist] at he
+  | nil => intro st s _ e he; simp [runHist] at he
   | cons op h ih =>
-    intro st s e he
+    intro st s hg e he
+    have hg' : ∀ g, HOp.upd g ∈ h → ∀ s, ctr s ≤ ctr (g s) := fun g hm => hg g (List.mem_cons_of_mem _ hm)
     cases op with
-    | ext f => exact ih _ _ e he
+    | ext f => exact ih _ _ hg' e he
+    | upd g => exact Nat.le_trans (hg g (List.mem_cons_self ..) s) (ih _ _ hg' e he)
     | req r =>
       simp only [runHist, List.mem_cons] at he
       rcases he with rfl | he
       · exact Nat.le_refl _
-      · exact Nat.le_trans (hF.mono st s r) (ih _ _ e he)
+      · exact Nat.le_trans (hF.mono st s r) (ih _ _ hg' e he)
 
 theorem acc_yield_fresh_aux (ops : Ops σ S C) (ns : Nat) (ctr : σ → Nat) (hF : FreshYield ops ns ctr) :
-    ∀ (h : List (HOp S C)) (st : Store C) (s : σ),
+    ∀ (h : List (HOp σ S C)) (st : Store C) (s : σ),
       (∀ r, HOp.req r ∈ h → r.isAcc = true) →
+      (∀ g, HOp.upd g ∈ h → ∀ s, ctr s ≤ ctr (g s)) →
       (∀ e ∈ runHist ops ctr st s h, ∀ t ∈ e.req.cells, t.1 = ns → t.2 < e.ctr) →
       ∀ pre e post, runHist ops ctr st s h = pre ++ e :: post →
         (cellsOf e.resp.outs).Nodup ∧
@@ -784,12 +746,15 @@ theorem acc_yield_fresh_aux (ops : Ops σ S C) (ns : Nat) (ctr : σ → Nat) (hF
         ∀ t ∈ cellsOf e.resp.outs, ∀ e' ∈ pre, t ∉ e'.req.cells ∧ t ∉ cellsOf e'.resp.outs := by
   intro h
   induction h with
-  | nil => intro st s _ _ pre e post heq; simp [runHist] at heq
+  | nil => intro st s _ _ _ pre e post heq; simp [runHist] at heq
   | cons op h ih =>
-    intro st s hacc hin pre e post heq
+    intro st s hacc hg hin pre e post heq
+    have hg' : ∀ g, HOp.upd g ∈ h → ∀ s, ctr s ≤ ctr (g s) := fun g hm => hg g (List.mem_cons_of_mem _ hm)
     cases op with
     | ext f =>
-      exact ih (f st) s (fun r hr => hacc r (List.mem_cons_of_mem _ hr)) hin pre e post heq
+      exact ih (f st) s (fun r hr => hacc r (List.mem_cons_of_mem _ hr)) hg' hin pre e post heq
+    | upd g =>
+      exact ih st (g s) (fun r hr => hacc r (List.mem_cons_of_mem _ hr)) hg' hin pre e post heq
     | req r =>
       have hr : r.isAcc = true := hacc r (List.mem_cons_self ..)
       simp only [runHist] at heq hin
@@ -805,14 +770,14 @@ theorem acc_yield_fresh_aux (ops : Ops σ S C) (ns : Nat) (ctr : σ → Nat) (hF
         simp only [List.cons_append, List.cons.injEq] at heq
         obtain ⟨he0, heq⟩ := heq
         obtain ⟨i1, i2, i3⟩ := ih (ops.act st s r).1 (ops.act st s r).2.1
-          (fun r hr => hacc r (List.mem_cons_of_mem _ hr))
+          (fun r hr => hacc r (List.mem_cons_of_mem _ hr)) hg'
           (fun e he => hin e (List.mem_cons_of_mem _ he)) pre' e post heq
         refine ⟨i1, i2, ?_⟩
         intro t ht e' he'
         rcases List.mem_cons.mp he' with rfl | he'
         · -- the first event: everything it mentions existed before `e` allocated
           have hge : ctr (ops.act st s r).2.1 ≤ e.ctr :=
-            runHist_ctr_ge ops ns ctr hF h _ _ e (by rw [heq]; simp)
+            runHist_ctr_ge ops ns ctr hF h _ _ hg' e (by rw [heq]; simp)
           obtain ⟨t1, t2⟩ := i2 t ht
           subst he0
           refine ⟨fun hmem => ?_, fun hmem => ?_⟩
